@@ -337,6 +337,11 @@ func negotiateSession(ctx context.Context, location, origin jid.JID, rw io.ReadW
 		s.state |= mask
 	}
 
+	// The negotiator may have selected the WebSocket subprotocol itself (eg.
+	// websocket.Negotiator) instead of the caller's context.
+	if s.in.Info.Name.Space == intstream.NSFraming {
+		s.ws = true
+	}
 	s.in.d = intstream.Reader(s.in.d, s.ws)
 	se := &stanzaEncoder{TokenWriteFlusher: s.out.e, ns: s.out.Info.XMLNS}
 	if s.out.Info.XMLNS == stanza.NSServer {
